@@ -592,10 +592,10 @@ func (g *gen) reuse(t *rapid.T) {
 		t.Skip("kept fid's object not listed")
 	}
 	ops := []string{"wstat", "wstat", "remove"}
-	if !h.opened && o.kind == "dir" {
+	if !h.opened && o.kind == "dir" && h.dirType {
 		ops = append(ops, "create", "create")
 	}
-	if (!h.opened && o.follow == "file") || (h.opened && h.fB != nil && (h.mode&3 == oWrite || h.mode&3 == oRdwr)) {
+	if (!h.opened && o.follow == "file" && !h.dirType) || (h.opened && h.fB != nil && (h.mode&3 == oWrite || h.mode&3 == oRdwr)) {
 		ops = append(ops, "write", "write")
 	}
 	var s Step
@@ -620,6 +620,119 @@ func (g *gen) reuse(t *rapid.T) {
 	}
 	s.Use = i + 1
 	s.Keep = rapid.IntRange(0, 3).Draw(t, "keep") != 0
+	g.run(t, s)
+}
+
+// replaced: a fid — freshly walked, or one kept by an earlier step — whose
+// object is replaced behind its back before the fid is used: the object is
+// removed through another fid and a file, a directory, a symlink or (from the
+// host side) a FIFO appears under the same name. The remove / wstat / open +
+// write / create then sent through the stale fid is judged against the POSIX
+// operation on the same path in B (Ufs fids designate paths).
+func (g *gen) replaced(t *rapid.T) {
+	var cands []obj
+	for _, o := range g.objects() {
+		if c := g.m.removeClass(under(g.m.B, o.comps)); c != "nonempty-dir" && c != "free" {
+			cands = append(cands, o)
+		}
+	}
+	if len(cands) == 0 {
+		t.Skip("nothing removable")
+	}
+	var o obj
+	var h *held
+	use := 0
+	if len(g.m.held) > 0 && rapid.Bool().Draw(t, "viakept") {
+		i := rapid.IntRange(0, len(g.m.held)-1).Draw(t, "kept")
+		h = g.m.held[i]
+		found := false
+		for _, x := range cands {
+			if relOf(x.comps) == relOf(h.comps) {
+				o, found = x, true
+			}
+		}
+		if !found {
+			t.Skip("kept fid's object cannot be removed")
+		}
+		use = i + 1
+	} else {
+		o = cands[rapid.IntRange(0, len(cands)-1).Draw(t, "target")]
+	}
+	name := o.comps[len(o.comps)-1]
+	parentB := under(g.m.B, o.comps[:len(o.comps)-1])
+	newKind := rapid.SampledFrom([]string{"file", "file", "file", "dir", "dir", "dir", "symlink", "symlink", "fifo"}).Draw(t, "newkind")
+	rp := Step{Replace: newKind, RPerm: drawPerm(t, "rperm")}
+	rp.RHost = rapid.IntRange(0, 2).Draw(t, "rhost") == 0
+	rp.Probe = rapid.Bool().Draw(t, "probe")
+	// what the path will hold afterwards
+	n := obj{comps: o.comps, kind: newKind, follow: "none"}
+	plainTarget := true // an open of the path cannot reach a FIFO or another special file
+	resolved := ""      // where a symlink leads
+	switch newKind {
+	case "file":
+		rp.RData = drawData(t, "rdata")
+		n.follow, n.size = "file", int64(len(rp.RData))
+	case "dir":
+		n.follow = "dir"
+	case "fifo":
+		plainTarget = false
+	case "symlink":
+		rp.RTarget = drawTarget(t, g.pool, name)
+		first := strings.SplitN(string(rp.RTarget), "/", 2)[0]
+		if first != string(name) { // through its own name: a loop
+			resolved = parentB + "/" + string(rp.RTarget)
+			if fi, err := os.Stat(resolved); err == nil {
+				switch {
+				case fi.IsDir():
+					n.follow = "dir"
+				case fi.Mode().IsRegular():
+					n.follow, n.size = "file", fi.Size()
+				default:
+					plainTarget = false
+				}
+			}
+		}
+	}
+	dirType := o.kind == "dir"
+	opened := false
+	if h != nil {
+		dirType, opened = h.dirType, h.opened
+	}
+	ops := []string{"remove", "remove", "remove", "wstat", "wstat"}
+	if !opened && !dirType && plainTarget {
+		ops = append(ops, "write")
+	}
+	if !opened && dirType {
+		ops = append(ops, "create", "create")
+	}
+	var s Step
+	switch rapid.SampledFrom(ops).Draw(t, "op") {
+	case "remove":
+		s = Step{Op: "remove", Path: o.comps}
+		s.Twice = rapid.IntRange(0, 3).Draw(t, "twice") == 0
+	case "wstat":
+		s = g.drawWstatOne(t, n)
+	case "write":
+		s = Step{Op: "write", Path: o.comps}
+		s.Mode = rapid.SampledFrom([]uint8{oWrite, oRdwr}).Draw(t, "mode")
+		s.Writes = g.drawWrites(t, n.size, 3)
+	case "create":
+		if rapid.Bool().Draw(t, "special") {
+			s = g.drawCreateSpecial(t, o.comps)
+			if s.Kind == "link" && relOf(s.Src) == relOf(o.comps) && newKind == "fifo" {
+				s.Mode = oRdwr
+			}
+		} else {
+			s = g.drawCreateFile(t, o.comps)
+			if resolved != "" && isFifo(resolved+"/"+string(s.Name)) {
+				t.Skip("the name leads to a FIFO once the directory is a symlink")
+			}
+		}
+	}
+	s.Stale = false
+	s.Replace, s.RHost, s.RPerm, s.RData, s.RTarget, s.Probe = rp.Replace, rp.RHost, rp.RPerm, rp.RData, rp.RTarget, rp.Probe
+	s.Use = use
+	s.Keep = rapid.Bool().Draw(t, "keep")
 	g.run(t, s)
 }
 
@@ -737,6 +850,8 @@ func TestPropTwin(t *testing.T) {
 			"wstatPrepared": g.wstatPrepared,
 			"reuse":         g.reuse,
 			"reuseAgain":    g.reuse,
+			"replaced":      g.replaced,
+			"replacedAgain": g.replaced,
 		})
 		hx.Sample("twin", sampleOf(c))
 		if len(c.Steps) > maxSteps {
